@@ -37,6 +37,7 @@ theorem listing_from_gts_var_target (fileVars : List String) (hnd : fileVars.Nod
 def hapDosage (g : Transform.Geno) (h : Transform.Hap) (s : Nat) : Nat :=
   (if Transform.carries g h s 0 then 1 else 0) + (if Transform.carries g h s 1 then 1 else 0)
 
+/-- the dosage of a haplotype used by `ld` is the number of the sample's two strands that carry all of its alleles, whether computed per haplotype or by the set-wise transform -/
 theorem hap_dosage_counts_strands (g : Transform.Geno) (haps : List Transform.Hap) (h : Transform.Hap)
     (hh : h ∈ haps) (s : Nat) :
     hapDosage g h s =
